@@ -1,60 +1,45 @@
-(* The cumulative-count median rule AS PROPOSED IN THE PATCH for finding
-   C14-median-zero-count-after-half (average with the next category THAT HAS COUNTS) is the
-   median of the respondents' values with no side condition.  Not part of the model of the
-   current code: it documents that the proposed repair is the right one. *)
+(* HISTORICAL - not about the model of the current code.
+
+   Until the repair dda43200 (finding C14-median-zero-count-after-half, now fixed) the
+   cumulative-count median rule averaged, at an exact 50 % point, with `median_idx + 1`: the next
+   category in value order even when it is empty.  That rule is kept in Model/Scale.v as
+   [weighted_median_v0] (used by nothing) and this file records
+     - that it was NOT a median of the respondents' values (counts 2,0,2 on the values 1,2,3),
+       i.e. the unconditional theorem [weighted_median_is_median] of Proofs/ScaleMedianProofs.v
+       distinguishes the repaired rule from the old one;
+     - the side condition under which it was one ([no_gap]).
+   The repaired rule [weighted_median] and its unconditional proof are in ScaleMedianProofs.v. *)
 From Coq Require Import QArith ZArith List Bool Lia Arith Lqa Sorted Permutation.
 From CC Require Import Base.XQ Base.ListX Spec.Stats Model.Scale Proofs.ScaleMedianProofs.
 Import ListNotations.
 Local Close Scope Q_scope.
 Local Open Scope nat_scope.
 
-Definition weighted_median_fixed (sorted_counts : list xq) (sorted_values : list Q) : xq :=
-  let cs := map nan_to_num sorted_counts in
-  let cum := cumsum cs in
-  let total := last cum 0%Q in
-  if Qeq_bool total 0 then NaN else
-  let props := map (fun c => c / total)%Q cum in
-  let idx := argmax_bool (map (fun p => Qle_bool (1 # 2) p) props) in
-  if Qeq_bool (nth idx props 0%Q) (1 # 2)
-  then (* median_idx + 1 + np.argmax(sorted_counts[median_idx + 1:] > 0) *)
-       let nxt := S idx + argmax_bool (map (fun c => negb (Qle_bool c 0)) (skipn (S idx) cs)) in
-       Fin ((nth idx sorted_values 0 + nth nxt sorted_values 0) / 2)%Q
-  else Fin (nth idx sorted_values 0%Q).
+(* whenever the categories up to k hold exactly half of the respondents, the next category (in
+   value order) is not empty *)
+Definition no_gap (ns : list nat) : Prop :=
+  forall k, S k < length ns -> 2 * upto (S k) ns = list_sum ns -> 0 < nth (S k) ns 0.
 
-Lemma pos_test n : negb (Qle_bool (inj n) 0) = true <-> 0 < n.
+(* all valued categories non-empty is the simplest sufficient condition *)
+Lemma all_positive_no_gap ns : Forall (fun n => 0 < n) ns -> no_gap ns.
 Proof.
-  rewrite negb_true_iff. split.
-  - intros H. destruct n; [|lia]. exfalso.
-    assert (E : Qle_bool (inj 0) 0 = true) by reflexivity. congruence.
-  - intros H. destruct (Qle_bool (inj n) 0) eqn:E; [|reflexivity].
-    apply Qle_bool_iff in E. change 0%Q with (inj 0) in E. apply inj_le in E. lia.
+  intros H k Hk _. rewrite Forall_forall in H. apply H. apply nth_In. exact Hk.
 Qed.
 
-Lemma upto_zero_run ns a d : (forall k, a <= k < a + d -> nth k ns 0 = 0) ->
-  upto (a + d) ns = upto a ns.
-Proof.
-  induction d as [|d IH]; intros H; [rewrite Nat.add_0_r; reflexivity|].
-  replace (a + S d) with (S (a + d)) by lia. rewrite upto_S, IH.
-  - rewrite (H (a + d)) by lia. lia.
-  - intros k Hk. apply H. lia.
-Qed.
-
-Lemma nth_skipn_inj ns a j : nth j (skipn a (map inj ns)) (inj 0) = inj (nth (a + j) ns 0).
-Proof. rewrite nth_skipn_add. apply map_nth. Qed.
-
-Section Fixed.
+Section V0.
   Variable vs : list Q.
   Variable ns : list nat.
   Hypothesis Hlen : length vs = length ns.
   Hypothesis Hpos : 0 < list_sum ns.
 
-  Theorem weighted_median_fixed_middle :
-    exists m, weighted_median_fixed (map cnt ns) vs = Fin m /\ (m == middle (expand vs ns))%Q.
+  Theorem weighted_median_v0_middle : no_gap ns ->
+    exists m, weighted_median_v0 (map cnt ns) vs = Fin m /\ (m == middle (expand vs ns))%Q.
   Proof.
+    intros Hgap.
     pose proof (idx_props vs ns Hlen Hpos) as Hidx.
     pose proof (half_test vs ns Hlen Hpos) as Hhalf.
     pose proof (total_pos vs ns Hlen Hpos) as Htot.
-    unfold weighted_median_fixed. rewrite map_cnt.
+    unfold weighted_median_v0. rewrite map_cnt.
     set (cum := cumsum (map inj ns)) in *.
     set (total := last cum 0%Q) in *.
     set (props := map (fun c => (c / total)%Q) cum) in *.
@@ -67,48 +52,18 @@ Section Fixed.
     unfold middle. rewrite (expand_len vs ns Hlen).
     destruct (Qeq_bool (nth idx props 0%Q) (1 # 2)) eqn:Eh.
     - clear Eh. assert (Eh : list_sum ns = 2 * upto (S idx) ns) by (apply Hhalf; reflexivity).
-      set (bs2 := map (fun c => negb (Qle_bool c 0)) (skipn (S idx) (map inj ns))).
-      assert (Hlen2 : length bs2 = length ns - S idx).
-      { unfold bs2. rewrite map_length, skipn_length, map_length. reflexivity. }
-      assert (Hnth2 : forall j, j < length bs2 -> (nth j bs2 false = true <-> 0 < nth (S idx + j) ns 0)).
-      { intros j Hj. unfold bs2.
-        rewrite (nth_map_lt (fun c => negb (Qle_bool c 0)) _ j false (inj 0))
-          by (unfold bs2 in Hj; rewrite map_length in Hj; exact Hj).
-        rewrite nth_skipn_inj. apply pos_test. }
-      assert (Hex : existsb (fun b => b) bs2 = true).
-      { destruct (existsb (fun b => b) bs2) eqn:Ex; [reflexivity|]. exfalso.
-        assert (Hz : forall k, S idx <= k < S idx + (length ns - S idx) -> nth k ns 0 = 0).
-        { intros k Hk. destruct (nth k ns 0) as [|p] eqn:Ek; [reflexivity|]. exfalso.
-          assert (Hj : k - S idx < length bs2) by lia.
-          assert (T : nth (k - S idx) bs2 false = true).
-          { apply Hnth2; [exact Hj|]. replace (S idx + (k - S idx)) with k by lia. lia. }
-          assert (In true bs2) by (rewrite <- T; apply nth_In; exact Hj).
-          assert (existsb (fun b => b) bs2 = true) by (apply existsb_exists; exists true; auto).
-          congruence. }
-        pose proof (upto_zero_run ns (S idx) (length ns - S idx) Hz) as Hrun.
-        rewrite (upto_all ns) in Hrun by lia. lia. }
-      destruct (first_true_props bs2 Hex) as [F1 [F2 F3]].
-      assert (Ej : argmax_bool bs2 = first_true bs2).
-      { unfold argmax_bool. apply Nat.ltb_lt in F1. rewrite F1. reflexivity. }
-      fold bs2. rewrite Ej. set (j := first_true bs2) in *.
-      assert (Hnext : S idx + j < length ns) by lia.
-      assert (Hg : 0 < nth (S idx + j) ns 0) by (apply Hnth2; assumption).
-      assert (Hrun : upto (S idx + j) ns = upto (S idx) ns).
-      { apply upto_zero_run. intros k Hk.
-        destruct (nth k ns 0) as [|p] eqn:Ek; [reflexivity|]. exfalso.
-        assert (Hk2 : k - S idx < j) by lia.
-        specialize (F3 _ Hk2).
-        assert (T : nth (k - S idx) bs2 false = true).
-        { apply Hnth2; [lia|]. replace (S idx + (k - S idx)) with k by lia. lia. }
-        congruence. }
+      assert (Hnext : S idx < length ns).
+      { destruct (Nat.lt_ge_cases (S idx) (length ns)) as [L|L]; [exact L|].
+        rewrite upto_all in Eh by lia. lia. }
+      assert (Hg : 0 < nth (S idx) ns 0) by (apply Hgap; [exact Hnext|lia]).
       assert (Ev : Nat.even (list_sum ns) = true).
       { apply Nat.even_spec. exists (upto (S idx) ns). exact Eh. }
       rewrite Ev. eexists. split; [reflexivity|].
       assert (E1 : list_sum ns / 2 = upto (S idx) ns) by (rewrite Eh; apply half_even).
       rewrite E1.
       rewrite (nth_expand vs ns idx (upto (S idx) ns - 1) 0%Q Hlen Hi) by lia.
-      rewrite (nth_expand vs ns (S idx + j) (upto (S idx) ns) 0%Q Hlen Hnext)
-        by (rewrite (upto_S ns (S idx + j)); lia).
+      rewrite (nth_expand vs ns (S idx) (upto (S idx) ns) 0%Q Hlen Hnext)
+        by (rewrite (upto_S ns (S idx)); lia).
       reflexivity.
     - assert (Hne : list_sum ns <> 2 * upto (S idx) ns).
       { intros E. apply Hhalf in E. discriminate. }
@@ -125,22 +80,28 @@ Section Fixed.
         rewrite (nth_expand vs ns idx h 0%Q Hlen Hi) by lia.
         reflexivity.
   Qed.
-End Fixed.
+End V0.
 
-(* no side condition any more *)
-Theorem weighted_median_fixed_is_median vs ns :
-  length vs = length ns -> Sorted Qle vs -> 0 < list_sum ns ->
-  exists m, weighted_median_fixed (map cnt ns) vs = Fin m /\ is_median_of (expand vs ns) m.
+(* the old rule was a median only under the side condition ... *)
+Theorem weighted_median_v0_is_median vs ns :
+  length vs = length ns -> Sorted Qle vs -> 0 < list_sum ns -> no_gap ns ->
+  exists m, weighted_median_v0 (map cnt ns) vs = Fin m /\ is_median_of (expand vs ns) m.
 Proof.
-  intros Hl Hs Hp.
-  destruct (weighted_median_fixed_middle vs ns Hl Hp) as [m [E Em]].
+  intros Hl Hs Hp Hg.
+  destruct (weighted_median_v0_middle vs ns Hl Hp Hg) as [m [E Em]].
   exists m. split; [exact E|]. split.
   - intros H0. pose proof (expand_length vs ns Hl) as L. rewrite H0 in L. simpl in L. lia.
   - exists (expand vs ns). split; [apply Permutation_refl|]. split; [|exact Em].
     apply expand_sorted. exact Hs.
 Qed.
 
-(* and it agrees with the current rule whenever that one was right *)
-Example weighted_median_fixed_witness :
-  weighted_median_fixed (map cnt [2; 0; 2]) [1; 2; 3]%Q = Fin ((1 + 3) / 2).
-Proof. reflexivity. Qed.
+(* ... and not without it, where the repaired rule is: counts 2,0,2 on the values 1,2,3 *)
+Theorem weighted_median_v0_not_median :
+  exists vs ns, length vs = length ns /\ Sorted Qle vs /\ 0 < list_sum ns /\
+    weighted_median_v0 (map cnt ns) vs = Fin (3 # 2) /\
+    weighted_median (map cnt ns) vs =x= Fin 2 /\ (middle (expand vs ns) == 2)%Q.
+Proof.
+  exists [1; 2; 3]%Q, [2; 0; 2]. split; [reflexivity|]. split.
+  - repeat constructor; unfold Qle; simpl; lia.
+  - split; [simpl; lia|]. split; [reflexivity|]. split; [vm_compute; reflexivity|reflexivity].
+Qed.
